@@ -82,7 +82,7 @@ func ops() []op {
 		x.b = binding{}
 		return m.RemoveBinding(macA)
 	}})
-	for _, r := range []string{"10.7.7.10/32", "10.20.0.0/16"} {
+	for _, r := range []string{"10.7.7.10/32", "10.7.7.10/31", "10.20.0.0/16"} { // nested ranges on one network address included
 		r := r
 		o = append(o, op{"AddAllowedRange(" + r + ")", func(m *antispoof.Manager, x *model) error {
 			x.ranges = append(x.ranges, mustCIDR(r))
